@@ -1270,3 +1270,27 @@ TABLE["C12"] += [
       (IP + "module.py", "from pyparsing import (ParseResults, ZeroOrMore,  # type: ignore\n                       cppStyleComment, stringEnd)", "from pyparsing import (ParseResults, ZeroOrMore,  # type: ignore\n                       cStyleComment, stringEnd)"),
       (IP + "module.py", "rule.ignore(cppStyleComment)", "rule.ignore(cStyleComment)")),
 ]
+TABLE["C17"] += [
+    B("nameless-parameter-flag-set-to-its-initial-value", {"Q5"},
+      (XP, "                    eliminate = True\n                    continue", "                    eliminate = False\n                    continue")),
+    B("remembered-index-never-read-back", {"Q5"},
+      (XP, "                documenting_index = self._memory[function_key]\n", "")),
+    B("replacement-looks-at-group-one", {"Q1"},
+      (PW, "            escape = match.group(0)", "            escape = match.group(1)")),
+    B("replacement-tests-the-wrong-character", {"Q1"},
+      (PW, "            if escape[1] != 'x':", "            if escape[2] != 'x':")),
+    B("replacement-passes-hex-escapes-through", {"Q1"},
+      (PW, "            if escape[1] != 'x':", "            if escape[1] == 'x':")),
+]
+TABLE["C09"] += [
+    B("variable-default-never-reaches-the-value-slot", {"W9"},
+      (PW, "            variable_value = variable.default\n", "")),
+]
+TABLE["C03"] += [
+    B("includes-of-namespaces-above-the-top-namespace-dropped", {"A3"},
+      (PW, "                    wrapped += wrapped_namespace\n                    includes += includes_namespace\n        else:", "                    wrapped += wrapped_namespace\n        else:")),
+]
+TABLE["C10"] += [
+    B("serialize-routine-named-after-the-template", {"T9"},
+      (MW, "                    body += self.wrap_collector_function_serialize(\n                        collector_func[1].name,", "                    body += self.wrap_collector_function_serialize(\n                        collector_func[1].original.name,")),
+]
